@@ -268,7 +268,8 @@ def check():
         if "Expr::Lambda" in rs:
             kinds["lambda"] += 1
             continue
-        if not ck:
+        gt0 = [e for e in calls if e[1] == "IndexMap::get"]
+        if not ck and not gt0:
             kinds["inline"] += 1
             structural("eval_declaration: a declaration that is neither a reference nor a recursion point is inlined (its right-hand side is evaluated in place)",
                        len(ea) == 1 and "Declaration::rhs(&decl)" in ms.show(ea[0][2][1]) and not ins)
@@ -276,8 +277,13 @@ def check():
             if isref:
                 L.expect_unsat("eval_declaration: inlining only for a non-reference identifier", cond + [S.b(isref[0][3])], on_sat)
             continue
-        key = ck[0][2][1]
-        known = S.b(ck[0][3])
+        # "is the name in the table?" - asked with contains_key, or read off the lookup itself
+        if ck:
+            key = ck[0][2][1]
+            known = S.b(ck[0][3])
+        else:
+            key = gt0[0][2][1]
+            known = S.i(ms.disc_of(gt0[0][3], E)) == 1
         if ea:
             kinds["first"] += 1
             L.expect_unsat("eval_declaration: the right-hand side of a reference / recursion point is evaluated only if its name is not in the table yet", cond + [known], on_sat)
@@ -291,17 +297,21 @@ def check():
             g = [e for e in calls if e[1] == "IndexMap::get"]
             L.expect_unsat("eval_declaration: nothing is re-evaluated only when the name is already in the table", cond + [z3.Not(known)], on_sat)
             structural("eval_declaration (later visits): nothing is stored", not ins and len(g) == 1 and g[0][2][1] == key)
+            cl = [e[3] for e in calls if e[1] == "Option.Clone::clone"] or \
+                 [ms.proj(ms.proj(e[3], ("v", "Some"), E), ("f", 0), E) for e in calls if e[1] == "Option::cloned"]
             if "Expr::Recursion(" in rs:
                 kinds["reentrant"] += 1
-                cl = [e for e in calls if e[1] == "Option.Clone::clone"]
                 if cl:
                     L.expect_unsat("eval_declaration: Recursion(name) is returned exactly while the entry is the empty marker (evaluation in progress)",
-                                   cond + [S.i(ms.disc_of(cl[0][3], E)) != 0], on_sat)
+                                   cond + [S.i(ms.disc_of(cl[0], E)) != 0], on_sat)
+                else:
+                    structural("eval_declaration: the re-entrance decision reads the entry", False)
             elif "Expr::Reference(" in rs:
                 kinds["again"] += 1
-                cl = [e for e in calls if e[1] == "Option.Clone::clone"]
                 if cl:
-                    L.expect_unsat("eval_declaration: a finished entry is returned as Reference(name, stored value)", cond + [S.i(ms.disc_of(cl[0][3], E)) != 1], on_sat)
+                    L.expect_unsat("eval_declaration: a finished entry is returned as Reference(name, stored value)", cond + [S.i(ms.disc_of(cl[0], E)) != 1], on_sat)
+                else:
+                    structural("eval_declaration: the re-use decision reads the entry", False)
         # naming
         if "Context::node_identifier" in names:
             ni = [e for e in calls if e[1] == "Context::node_identifier"][0]
